@@ -196,7 +196,11 @@ type pathOutcome struct {
 }
 
 // Explore runs entry(args...) over all feasible paths.
-func (e *Engine) Explore(entry *ssa.Function, args []Value, setup func(st *State)) *Report {
+func (e *Engine) Explore(entry *ssa.Function, args []Value, setup func(st *State), cfgp *Config) *Report {
+	cfg := e.Cfg
+	if cfgp != nil {
+		cfg = *cfgp
+	}
 	t0 := time.Now()
 	rep := NewReport(entry.String())
 	var mu sync.Mutex
@@ -206,7 +210,7 @@ func (e *Engine) Explore(entry *ssa.Function, args []Value, setup func(st *State
 	stop := false
 	sampled := 0
 
-	workers := e.Cfg.Workers
+	workers := cfg.Workers
 	if workers < 1 {
 		workers = 1
 	}
@@ -216,16 +220,18 @@ func (e *Engine) Explore(entry *ssa.Function, args []Value, setup func(st *State
 		go func() {
 			defer wg.Done()
 			var sol *Solver
+			var base [5]int
+			var baseT time.Duration
 			defer func() {
 				if sol != nil {
 					mu.Lock()
-					rep.SolverSat += sol.Sat
-					rep.SolverUnsat += sol.Unsat
-					rep.SolverUnk += sol.Unknown
-					rep.SolverErr += sol.Errors
-					rep.SolverTime += sol.Time
+					rep.SolverSat += sol.Sat - base[0]
+					rep.SolverUnsat += sol.Unsat - base[1]
+					rep.SolverUnk += sol.Unknown - base[2]
+					rep.SolverErr += sol.Errors - base[3]
+					rep.SolverTime += sol.Time - baseT
 					mu.Unlock()
-					sol.Close()
+					releaseSolver(sol)
 				}
 			}()
 			for {
@@ -241,7 +247,7 @@ func (e *Engine) Explore(entry *ssa.Function, args []Value, setup func(st *State
 				prefix := work[len(work)-1]
 				work = work[:len(work)-1]
 				active++
-				wantSample := sampled < e.Cfg.SamplePaths
+				wantSample := sampled < cfg.SamplePaths
 				if wantSample {
 					sampled++
 				}
@@ -249,7 +255,11 @@ func (e *Engine) Explore(entry *ssa.Function, args []Value, setup func(st *State
 
 				if sol == nil || sol.dead {
 					var err error
-					sol, err = NewSolver(e.Cfg.Solver, e.Cfg.TimeoutMs)
+					sol, err = acquireSolver(cfg.Solver, cfg.TimeoutMs)
+					if err == nil {
+						base = [5]int{sol.Sat, sol.Unsat, sol.Unknown, sol.Errors, 0}
+						baseT = sol.Time
+					}
 					if err != nil {
 						mu.Lock()
 						rep.Problems = append(rep.Problems, "solver: "+err.Error())
@@ -260,7 +270,7 @@ func (e *Engine) Explore(entry *ssa.Function, args []Value, setup func(st *State
 						return
 					}
 				}
-				out := e.runPath(sol, entry, args, prefix, setup, wantSample)
+				out := e.runPath(sol, entry, args, prefix, setup, wantSample, &cfg)
 
 				mu.Lock()
 				active--
@@ -285,7 +295,7 @@ func (e *Engine) Explore(entry *ssa.Function, args []Value, setup func(st *State
 					rep.Stubs[s] += c
 				}
 				rep.Violations = append(rep.Violations, st.viol...)
-				if out.sample != nil && len(rep.Samples) < e.Cfg.SamplePaths {
+				if out.sample != nil && len(rep.Samples) < cfg.SamplePaths {
 					rep.Samples = append(rep.Samples, *out.sample)
 				}
 				switch out.status {
@@ -298,13 +308,13 @@ func (e *Engine) Explore(entry *ssa.Function, args []Value, setup func(st *State
 					rep.Problems = append(rep.Problems, fmt.Sprintf("solver unknown on %d queries", st.unknowns))
 				}
 				work = append(work, st.forks...)
-				if rep.Paths >= e.Cfg.MaxPaths || (!e.Cfg.Deadline.IsZero() && time.Now().After(e.Cfg.Deadline)) {
+				if rep.Paths >= cfg.MaxPaths || (!cfg.Deadline.IsZero() && time.Now().After(cfg.Deadline)) {
 					if len(work) > 0 || active > 0 {
 						rep.Truncated = true
 					}
 					stop = true
 				}
-				if e.Cfg.StopAtFirst && len(rep.Violations) > 0 {
+				if cfg.StopAtFirst && len(rep.Violations) > 0 {
 					stop = true
 				}
 				mu.Unlock()
@@ -329,9 +339,9 @@ func decString(ds []Decision) string {
 	return s
 }
 
-func (e *Engine) newState(sol *Solver, prefix []Decision) *State {
+func (e *Engine) newState(sol *Solver, prefix []Decision, cfg *Config) *State {
 	return &State{
-		eng: e, sol: sol, prefix: prefix,
+		eng: e, sol: sol, prefix: prefix, cfg: cfg,
 		bind: map[string]*Term{}, symW: map[string]uint8{}, nameCount: map[string]int{},
 		globals: map[*ssa.Global]*Value{}, covers: map[string]bool{},
 		fnCount: map[*ssa.Function]int64{}, stubs: map[string]int{},
@@ -339,8 +349,8 @@ func (e *Engine) newState(sol *Solver, prefix []Decision) *State {
 	}
 }
 
-func (e *Engine) runPath(sol *Solver, entry *ssa.Function, args []Value, prefix []Decision, setup func(*State), wantSample bool) (out pathOutcome) {
-	st := e.newState(sol, prefix)
+func (e *Engine) runPath(sol *Solver, entry *ssa.Function, args []Value, prefix []Decision, setup func(*State), wantSample bool, cfg *Config) (out pathOutcome) {
+	st := e.newState(sol, prefix, cfg)
 	out.st = st
 	sol.Send("(push 1)")
 	defer func() {
@@ -410,4 +420,52 @@ func trimStack(b []byte) string {
 		lines = lines[:40]
 	}
 	return strings.Join(lines, "\n")
+}
+
+// ---- solver pool: processes are reused across explorations (contexts are push/pop-balanced) ----
+
+var (
+	poolMu sync.Mutex
+	pool   = map[string][]*Solver{}
+)
+
+func acquireSolver(kind string, timeoutMs int) (*Solver, error) {
+	key := fmt.Sprintf("%s/%d", kind, timeoutMs)
+	poolMu.Lock()
+	if l := pool[key]; len(l) > 0 {
+		s := l[len(l)-1]
+		pool[key] = l[:len(l)-1]
+		poolMu.Unlock()
+		return s, nil
+	}
+	poolMu.Unlock()
+	s, err := NewSolver(kind, timeoutMs)
+	if err == nil {
+		s.poolKey = key
+	}
+	return s, err
+}
+
+func releaseSolver(s *Solver) {
+	if s == nil || s.dead {
+		if s != nil {
+			s.Close()
+		}
+		return
+	}
+	poolMu.Lock()
+	pool[s.poolKey] = append(pool[s.poolKey], s)
+	poolMu.Unlock()
+}
+
+// CloseSolvers terminates all pooled solver processes.
+func CloseSolvers() {
+	poolMu.Lock()
+	defer poolMu.Unlock()
+	for k, l := range pool {
+		for _, s := range l {
+			s.Close()
+		}
+		delete(pool, k)
+	}
 }
